@@ -16,7 +16,8 @@
 // Record: {"case","fam":"cuckoo","inst","size","setup","pool","never","nops","ins","q","q_never","hit","fneg","fp","erase","sig","nt"}
 // Violation key: cuckoo-false-positive.
 //
-// params: maxsize (default 4000), maxops (default 1500)
+// params: maxsize (default 4000), maxops (default 1500); include_default=1 (monitor self-test only, never used by a check's normal
+//         runs): puts the default-constructed element into the never-inserted part of the pool, which an empty table "contains"
 #include <common/vh.h>
 
 #include <cuckoocache.h>
@@ -127,6 +128,7 @@ VH_CMD(cuckoo)
 {
     const uint32_t maxsize = (uint32_t)args.geti("maxsize", 4000);
     const size_t maxops = (size_t)args.geti("maxops", 1500);
+    const bool include_default = args.geti("include_default", 0) != 0;
     static const uint32_t table_sizes[] = {0, 1, 2, 3, 4, 5, 7, 8, 9, 15, 16, 17, 31, 32, 33, 63, 64, 100, 127, 255, 256, 257, 1000};
     for (uint64_t c = args.from; c < args.to; ++c) {
         vh::set_case(c);
@@ -152,6 +154,7 @@ VH_CMD(cuckoo)
                 pool.push_back(SmallEl{v});
             }
             n_never = std::max<size_t>(1, npool / 4);
+            if (include_default) pool.back() = SmallEl{0};
             RunSeq<SmallEl, SmallHash>(rng, "small", req, by_bytes, pool, npool - n_never, nops, st, real_size);
         } else {
             std::set<uint256> seen;
@@ -178,6 +181,7 @@ VH_CMD(cuckoo)
             }
             rng.shuffle(pool); // so that the never-inserted tail contains siblings of inserted keys
             n_never = std::max<size_t>(1, npool / 4);
+            if (include_default) pool.back() = uint256{};
             RunSeq<uint256, SignatureCacheHasher>(rng, "u256", req, by_bytes, pool, npool - n_never, nops, st, real_size);
         }
         const bool nt = st.ins > 0 && st.q_never > 0 && st.hit > 0;
